@@ -116,14 +116,19 @@ pub struct PlanIter<I> {
     pub panic_at: Option<u16>,
     pub hint: Option<usize>,
     pub loose: Option<u16>,
+    pub upper: Option<usize>,
 }
 
 impl<I> PlanIter<I> {
     pub fn new(inner: I, hint: Option<usize>, panic_at: Option<u16>) -> Self {
-        PlanIter { inner, n: 0, panic_at, hint, loose: None }
+        PlanIter { inner, n: 0, panic_at, hint, loose: None, upper: None }
     }
     pub fn loose(mut self, l: Option<u16>) -> Self {
         self.loose = l;
+        self
+    }
+    pub fn upper(mut self, u: Option<usize>) -> Self {
+        self.upper = u;
         self
     }
 }
@@ -142,6 +147,10 @@ impl<I: Iterator> Iterator for PlanIter<I> {
         self.inner.next()
     }
     fn size_hint(&self) -> (usize, Option<usize>) {
+        if let Some(u) = self.upper {
+            // a lower bound above the upper bound would be nonsense even for a lying iterator
+            return (self.hint.unwrap_or(0).min(u), Some(u));
+        }
         match (self.hint, self.loose) {
             (Some(h), _) => (h, None),
             (None, Some(slack)) => (0, self.inner.size_hint().1.map(|u| u + slack as usize)),
